@@ -374,7 +374,7 @@ void vh_run_case(Ctx &ctx)
 
     int steps = rng.range(2, 7);
     for (int step = 0; step < steps; ++step) {
-        int op = rng.range(0, 9);
+        int op = rng.range(0, 11);
         if (op <= 2) {
             // edit the model behind the annotator's back
             auto slots = collect(m);
@@ -421,6 +421,7 @@ void vh_run_case(Ctx &ctx)
         CellmlElementType reqType = CellmlElementType::UNDEFINED;
         bool all = false;
         int single = -1;
+        bool reassign = false;
         if (op <= 5) {
             all = true;
             call = "assignAllIds";
@@ -509,6 +510,87 @@ void vh_run_case(Ctx &ctx)
             } else if (s.get() != got) {
                 viol("C13", "assign:assignId-return-not-stored:" + typeName(s.type), s.where + " returned " + got + " stored " + s.get(), history + " " + call);
             }
+        } else if (op >= 10) {
+            // assignId(item) on ONE item whatever it carries: the documented effect is a fresh unique id on that item
+            // (an existing id is replaced), nothing else changes, and the lookups follow
+            std::vector<int> cand;
+            for (size_t i = 0; i < before.size(); ++i) {
+                auto t = before[i].type;
+                if (t == CellmlElementType::UNIT || t == CellmlElementType::MAP_VARIABLES || t == CellmlElementType::VARIABLE || t == CellmlElementType::UNITS || t == CellmlElementType::COMPONENT) {
+                    cand.push_back(static_cast<int>(i));
+                }
+            }
+            if (cand.empty()) {
+                continue;
+            }
+            // prefer items that already carry an id (the index has to forget the old one)
+            std::vector<int> withId;
+            for (int i : cand) {
+                if (!beforeIds[static_cast<size_t>(i)].empty()) {
+                    withId.push_back(i);
+                }
+            }
+            single = !withId.empty() && rng.chance(0.75) ? rng.pick(withId) : rng.pick(cand);
+            reassign = true;
+            const auto &s = before[static_cast<size_t>(single)];
+            call = "assignId(" + typeName(s.type) + (beforeIds[static_cast<size_t>(single)].empty() ? "" : " carrying an id") + ")";
+            stage(call);
+            std::string got;
+            switch (s.type) {
+            case CellmlElementType::UNIT:
+                for (size_t i = 0; i < m->unitsCount(); ++i) {
+                    if (m->units(i).get() == s.obj1) {
+                        got = ann->assignId(m->units(i), s.index);
+                    }
+                }
+                break;
+            case CellmlElementType::UNITS:
+                for (size_t i = 0; i < m->unitsCount(); ++i) {
+                    if (m->units(i).get() == s.obj1) {
+                        got = ann->assignId(m->units(i));
+                    }
+                }
+                break;
+            case CellmlElementType::COMPONENT:
+                for (const auto &c : allComponents(m)) {
+                    if (c.get() == s.obj1) {
+                        got = ann->assignId(c, s.type);
+                    }
+                }
+                break;
+            case CellmlElementType::VARIABLE:
+                for (const auto &v : allVariables(m)) {
+                    if (v.get() == s.obj1) {
+                        got = ann->assignId(v);
+                    }
+                }
+                break;
+            default: { // MAP_VARIABLES
+                VariablePtr a;
+                VariablePtr b;
+                for (const auto &v : allVariables(m)) {
+                    if (v.get() == s.obj1) {
+                        a = v;
+                    }
+                    if (v.get() == s.obj2) {
+                        b = v;
+                    }
+                }
+                if (a != nullptr && b != nullptr) {
+                    got = rng.chance(0.5) ? ann->assignId(a, b, CellmlElementType::MAP_VARIABLES) : ann->assignId(b, a, CellmlElementType::MAP_VARIABLES);
+                }
+                break;
+            }
+            }
+            stat("reassign_calls");
+            if (got.empty()) {
+                monitorExplained(true, *ann, "Annotator::assignId", history + " " + call);
+                viol("C13", "assign:assignId-returned-empty:" + typeName(s.type), s.where, history + " " + call);
+            } else if (s.get() != got) {
+                viol("C13", "assign:assignId-return-not-stored:" + typeName(s.type), s.where + " returned " + got + " stored " + s.get(), history + " " + call);
+            } else if (got == beforeIds[static_cast<size_t>(single)]) {
+                viol("C13", "assign:assignId-kept-old-id:" + typeName(s.type), s.where + " still has " + got, history + " " + call);
+            }
         } else {
             call = "clearAllIds";
             ann->clearAllIds();
@@ -532,6 +614,13 @@ void vh_run_case(Ctx &ctx)
             const std::string &was = beforeIds[i];
             bool requested = all || before[i].type == reqType || static_cast<int>(i) == single;
             if (!was.empty()) {
+                if (reassign && static_cast<int>(i) == single) {
+                    // the one item that was asked to take a new id
+                    if (presentBefore.count(now) != 0U) {
+                        viol("C13", "assign:new-id-collides-with-existing:" + callKey, before[i].where + " received id " + now + " which was already present in the model at the time of the call", history);
+                    }
+                    continue;
+                }
                 if (now != was) {
                     viol("C13", "assign:changed-existing-id:" + typeName(before[i].type) + ":" + callKey, before[i].where + ": " + was + " -> " + now, history);
                 }
@@ -554,6 +643,22 @@ void vh_run_case(Ctx &ctx)
         checkLookups(ann, m, callKey, history, sharedImport);
     }
 
+    // the same annotator handed another model with the SAME ids in the same places (the document parsed twice):
+    // every lookup must now answer with objects of the new model
+    if (rng.chance(0.5)) {
+        stage("setModel(second model, same ids)");
+        std::string text = Printer::create()->printModel(m);
+        auto mA = Parser::create(false)->parseModel(text);
+        auto mB = Parser::create(false)->parseModel(text);
+        if (mA != nullptr && mB != nullptr && dumpModel(mA) == dumpModel(mB)) {
+            auto ann2 = rng.chance(0.5) ? ann : Annotator::create();
+            ann2->setModel(mA);
+            checkLookups(ann2, mA, "setModel(reparsed)", history + " setModel(reparsed A);", sharedImport);
+            ann2->setModel(mB);
+            checkLookups(ann2, mB, "setModel(second-model-same-ids)", history + " setModel(reparsed A); setModel(reparsed B);", sharedImport);
+            stat("second_model_same_ids");
+        }
+    }
     // printModel(model, true)
     {
         stage("printModel(autoIds)");
